@@ -12,8 +12,8 @@ open Node Raft Raft.CC RaftProps.C02 RaftProps.C05 Snap
 
 variable {cfg : JointConfig} {c0 : Nat} {h : List Sys}
 
-theorem sm_init (H : Hyp3 cfg c0 h) {s : Sys} (h0 : h[0]? = some s) : Sm h c0 0 s := by
-  have H2 := H.toHyp2
+theorem sm_init (H : Hyp3a cfg c0 h) {s : Sys} (h0 : h[0]? = some s) : Sm h c0 0 s := by
+  have H2 := H.toHyp2w
   have hinit := hist_init H.hist s h0
   obtain ⟨hnet, sto, hboot, _⟩ := H.init s h0
   have hq : ∀ v st, s.node v = some st → st.raft.msgs = [] := init_queue hinit
@@ -63,7 +63,7 @@ theorem sm_init (H : Hyp3 cfg c0 h) {s : Sys} (h0 : h[0]? = some s) : Sm h c0 0 
     exact ((ghost_inv H2 0 s h0).node v st hv).persisted (node_ok H2 h0 hv) (H.pend0 s h0 v st hv) hk
 
 /-- **the main induction** -/
-theorem sall (H : Hyp3 cfg c0 h) : ∀ n, SAll h c0 n := by
+theorem sall (H : Hyp3a cfg c0 h) : ∀ n, SAll h c0 n := by
   intro n
   induction n with
   | zero =>
@@ -86,14 +86,14 @@ theorem sall (H : Hyp3 cfg c0 h) : ∀ n, SAll h c0 n := by
         a2s_step H ih ha hs, g1_step H ih ha hs, nctm_step H ih ha hs, ncts_step H ih ha hs,
         scm_step H ih ha hs, pst_step H ih ha hs⟩
 
-theorem sm_all (H : Hyp3 cfg c0 h) {n : Nat} {s : Sys} (hn : h[n]? = some s) : Sm h c0 n s :=
+theorem sm_all (H : Hyp3a cfg c0 h) {n : Nat} {s : Sys} (hn : h[n]? = some s) : Sm h c0 n s :=
   sall H n n s (Nat.le_refl _) hn
 
 
 /-- the logs of two commit events agree up to the smaller commit index (ghost logs) -/
-theorem ev_logs_agree (H : Hyp3 cfg c0 h) {E1 E2 : Ev} (h1 : E1.ok h) (h2 : E2.ok h)
+theorem ev_logs_agree (H : Hyp3a cfg c0 h) {E1 E2 : Ev} (h1 : E1.ok h) (h2 : E2.ok h)
     (hle : E1.c ≤ E2.c) : EqUpTo (EvF h c0 E1) (EvF h c0 E2) E1.c := by
-  have H2 := H.toHyp2
+  have H2 := H.toHyp2w
   obtain ⟨l1, hh1, _⟩ := Ev.leaderLog H2 h1
   obtain ⟨l2, _, _⟩ := Ev.leaderLog H2 h2
   have S := sall H (E1.nE + E2.nE + 2)
@@ -102,14 +102,14 @@ theorem ev_logs_agree (H : Hyp3 cfg c0 h) {E1 E2 : Ev} (h1 : E1.ok h) (h2 : E2.o
 
 /-- **State-Machine Safety for the ghost logs**: the uncompacted logs of any two nodes, in any two
 states of the history, hold the same entry at every index both commit indexes cover -/
-theorem sms_ghost (H : Hyp3 cfg c0 h)
+theorem sms_ghost (H : Hyp3a cfg c0 h)
     {m1 : Nat} {s1 : Sys} (hm1 : h[m1]? = some s1) {v1 : Nat} {st1 : NState}
     (hv1 : s1.node v1 = some st1)
     {m2 : Nat} {s2 : Sys} (hm2 : h[m2]? = some s2) {v2 : Nat} {st2 : NState}
     (hv2 : s2.node v2 = some st2)
     {k : Nat} (hk1 : k ≤ st1.raft.raftLog.committed) (hk2 : k ≤ st2.raft.raftLog.committed) :
     (FL h c0 st1).entryAt k = (FL h c0 st2).entryAt k := by
-  have H2 := H.toHyp2
+  have H2 := H.toHyp2w
   have I1 := (ghost_inv H2 m1 s1 hm1).node v1 st1 hv1
   have I2 := (ghost_inv H2 m2 s2 hm2).node v2 st2 hv2
   by_cases hk0 : k ≤ c0
